@@ -27,21 +27,34 @@ FxMul(sr, a, b) ==
          [] sr = "fxd" -> (a * b) \div FXS
          [] sr = "fxu" -> -((-(a * b)) \div FXS)
 
-SrZero(sr) == CASE sr = "nat" -> 0 [] sr = "mp" -> NINF [] sr = "bool" -> 0 [] IsFx(sr) -> 0
+\* Dual numbers <<a, d>> (forward-mode derivative, product rule) over nat and over the grid:
+\* "dnat" exact; "dfxd" / "dfxu": value part exact on the grid, derivative part rounded down / up.
+IsDual(sr) == sr \in {"dnat", "dfxd", "dfxu"}
+DBase(sr) == CASE sr = "dnat" -> "nat" [] sr = "dfxd" -> "fx" [] sr = "dfxu" -> "fx"
+DRound(sr) == CASE sr = "dnat" -> "nat" [] sr = "dfxd" -> "fxd" [] sr = "dfxu" -> "fxu"
+BaseAdd(b, x, y) == IF b = "nat" THEN x + y ELSE (IF x = INEXACT \/ y = INEXACT THEN INEXACT ELSE x + y)
+BaseMul(b, x, y) == IF b = "nat" THEN x * y ELSE FxMul(b, x, y)
+
+SrZero(sr) == CASE sr = "nat" -> 0 [] sr = "mp" -> NINF [] sr = "bool" -> 0 [] IsFx(sr) -> 0 [] IsDual(sr) -> <<0, 0>>
 SrOne(sr)  == CASE sr = "nat" -> 1 [] sr = "mp" -> 0    [] sr = "bool" -> 1 [] IsFx(sr) -> FXS
+                [] sr = "dnat" -> <<1, 0>> [] sr \in {"dfxd", "dfxu"} -> <<FXS, 0>>
 SrAdd(sr, a, b) ==
   CASE sr = "nat"  -> IF a = INF \/ b = INF THEN INF ELSE a + b
     [] sr = "mp"   -> IF a >= b THEN a ELSE b
     [] sr = "bool" -> IF a = 1 \/ b = 1 THEN 1 ELSE 0
     [] IsFx(sr)    -> IF a = INEXACT \/ b = INEXACT THEN INEXACT ELSE a + b
+    [] IsDual(sr)  -> <<BaseAdd(DBase(sr), a[1], b[1]), BaseAdd(DRound(sr), a[2], b[2])>>
 SrMul(sr, a, b) ==
   CASE sr = "nat"  -> IF a = 0 \/ b = 0 THEN 0 ELSE IF a = INF \/ b = INF THEN INF ELSE a * b
     [] sr = "mp"   -> IF a = NINF \/ b = NINF THEN NINF ELSE IF a = INF \/ b = INF THEN INF ELSE a + b
     [] sr = "bool" -> IF a = 1 /\ b = 1 THEN 1 ELSE 0
     [] IsFx(sr)    -> FxMul(sr, a, b)
+    [] IsDual(sr)  -> <<BaseMul(DBase(sr), a[1], b[1]),
+                        BaseAdd(DRound(sr), BaseMul(DRound(sr), a[2], b[1]), BaseMul(DRound(sr), a[1], b[2]))>>
 SrFromInt(sr, n) ==
   CASE sr = "nat" -> n [] sr = "mp" -> (IF n > 0 THEN 0 ELSE NINF) [] sr = "bool" -> (IF n > 0 THEN 1 ELSE 0)
     [] IsFx(sr) -> n * FXS
+    [] sr = "dnat" -> <<n, 0>> [] sr \in {"dfxd", "dfxu"} -> <<n * FXS, 0>>
 SrLeq(sr, a, b) == a <= b      \* natural order of all three carriers with these sentinels
 
 SrSumSet(sr, f(_), S)  == FoldSet(LAMBDA x, acc: SrAdd(sr, acc, f(x)), SrZero(sr), S)
@@ -58,6 +71,9 @@ WeightOf(sr, g, lab, idx) ==
     [] sr = "bool" -> (IF g.w[lab][idx] # 0 THEN 1 ELSE 0)
     [] sr = "nat"  -> g.w[lab][idx]
     [] IsFx(sr)    -> g.wfx[lab][idx]          \* weights scaled by FXS
+    \* dual: the derivative is taken with respect to the weight entry g.seed = [lab, idx]
+    [] sr = "dnat" -> <<g.w[lab][idx], IF g.seed.lab = lab /\ g.seed.idx = idx THEN 1 ELSE 0>>
+    [] sr \in {"dfxd", "dfxu"} -> <<g.wfx[lab][idx], IF g.seed.lab = lab /\ g.seed.idx = idx THEN FXS ELSE 0>>
 
 \* all total assignments of a rule's nodes to values of their domains
 RuleAssts(g, r) ==
@@ -137,6 +153,26 @@ CertQ(g, x) == Max({0} \cup UNION { { ContractionBoundAt(g, x, X, ea) : ea \in E
 CertExact(g, cert) == StepF("fx", g, cert) = cert
 \* sound lower bound of the least fixed point: k Kleene steps with products rounded down
 LowerBound(g, k) == Kleene("fxd", g, k)
+
+(* ---- gradients ------------------------------------------------------------------------- *)
+\* the grammar with the differentiation seed set to weight entry (lab, idx)
+Seeded(g, lab, idx) == [x \in DOMAIN g \cup {"seed"} |-> IF x = "seed" THEN [lab |-> lab, idx |-> idx] ELSE g[x]]
+\* non-recursive: dZ_X[ea] / dw(lab, idx), exactly
+DZNonRec(g, lab, idx) == LET z == ZNonRec("dnat", Seeded(g, lab, idx)) IN
+                         [X \in Nts(g) |-> [ea \in ExtAssts(g, X) |-> z[X][ea][2]]]
+\* recursive, certified grammar on the grid: G(y) = J(cert) y + dF/dw(cert) in dual arithmetic
+DualState(g, cert, y) == [X \in Nts(g) |-> [ea \in ExtAssts(g, X) |-> <<cert[X][ea], y[X][ea]>>]]
+DStep(sr, g, cert, y) == LET r == StepF(sr, g, DualState(g, cert, y)) IN
+                         [X \in Nts(g) |-> [ea \in ExtAssts(g, X) |-> r[X][ea][2]]]
+DZero(g) == [X \in Nts(g) |-> [ea \in ExtAssts(g, X) |-> 0]]
+\* lower bound of the derivative of the least fixed point: k Kleene steps, rounded down
+DLower(g, cert, lab, idx, k) ==
+  FoldLeft(LAMBDA y, i: TLCEval(DStep("dfxd", Seeded(g, lab, idx), cert, y)), DZero(g), BIota(k))
+\* pad is an upper bound if lower + pad is a post-fixed point of G (rounded up)
+DUpperOK(g, cert, lab, idx, lo, pad) ==
+  LET U == [X \in Nts(g) |-> [ea \in ExtAssts(g, X) |-> lo[X][ea] + pad]]
+      GU == DStep("dfxu", Seeded(g, lab, idx), cert, U)
+  IN \A X \in Nts(g) : \A ea \in ExtAssts(g, X) : GU[X][ea] # INEXACT /\ GU[X][ea] <= U[X][ea]
 
 \* observed tensor of nonterminal X equals the function z.  The observation is flat, row-major,
 \* each entry an interval <<lo, hi>> of carrier values the observed float is compatible with
